@@ -197,7 +197,8 @@ class CoqBatch:
     Per-case definitions (add_def) may be referenced in expressions as $name.
     """
 
-    def __init__(self, name: str, imports: list[str], shard=300, preamble: str = "", extra_imports: str = ""):
+    def __init__(self, name: str, imports: list[str], shard=300, preamble: str = "", extra_imports: str = "", detail_limit=30):
+        self.detail_limit = detail_limit
         self.name = name
         self.imports = imports
         self.shard = shard
@@ -293,14 +294,22 @@ class CoqBatch:
         # detail pass: print the model's value for failing checks
         detailed = []
         if failed:
-            head = failed[:30]
-            lines = [self._header(), self._defs_text(list(dict.fromkeys(c[0] for c in head)))]
-            for k, (case, code, eq_fn, mexp, rlit) in enumerate(head):
-                lines.append(f"Eval vm_compute in ({self._subst(case, mexp)}).")
-            p = d / "detail.v"
-            p.write_text("\n".join(lines) + "\n")
-            rc, out, err = self._run_file(p, timeout)
-            vals = [" ".join(v.split()) for v in re.split(r"(?m)^\s*=", out)[1:]] if rc == 0 else []
+            head = failed[: self.detail_limit]
+            chunks = [head[k:k + 40] for k in range(0, len(head), 40)]
+            dfiles = []
+            for ci, chunk in enumerate(chunks):
+                lines = [self._header(), self._defs_text(list(dict.fromkeys(c[0] for c in chunk)))]
+                for k, (case, code, eq_fn, mexp, rlit) in enumerate(chunk):
+                    lines.append(f"Eval vm_compute in ({self._subst(case, mexp)}).")
+                p = d / ("detail.v" if ci == 0 else f"detail{ci}.v")
+                p.write_text("\n".join(lines) + "\n")
+                dfiles.append(p)
+            with ThreadPoolExecutor(max_workers=14) as ex:
+                dres = list(ex.map(lambda p: self._run_file(p, timeout), dfiles))
+            vals = []
+            for chunk, (rc, out, err) in zip(chunks, dres):
+                got = [" ".join(v.split()) for v in re.split(r"(?m)^\s*=", out)[1:]] if rc == 0 else []
+                vals.extend((got + ["?"] * len(chunk))[: len(chunk)])
             for k, chk in enumerate(failed):
                 mv = vals[k][:1500] if k < len(vals) else "?"
                 detailed.append((chk[0], chk[1], mv, chk[4][:1500], chk[3][:600]))
